@@ -141,11 +141,12 @@ structure GoInt where
 
 /-- Go conversion `T(x)` between integer types: two's-complement truncation -/
 def GoInt.wrap (g : GoInt) (v : Int) : Int :=
-  let m := v % (2 ^ g.bits : Int)
-  if g.signed ∧ m ≥ (2 ^ (g.bits - 1) : Int) then m - (2 ^ g.bits : Int) else m
+  let m := v % ((2 ^ g.bits : Nat) : Int)
+  if g.signed ∧ m ≥ ((2 ^ (g.bits - 1) : Nat) : Int) then m - ((2 ^ g.bits : Nat) : Int) else m
 
-def GoInt.lo (g : GoInt) : Int := if g.signed then -(2 ^ (g.bits - 1) : Int) else 0
-def GoInt.hi (g : GoInt) : Int := if g.signed then (2 ^ (g.bits - 1) : Int) - 1 else (2 ^ g.bits : Int) - 1
+def GoInt.lo (g : GoInt) : Int := if g.signed then -((2 ^ (g.bits - 1) : Nat) : Int) else 0
+def GoInt.hi (g : GoInt) : Int :=
+  if g.signed then ((2 ^ (g.bits - 1) : Nat) : Int) - 1 else ((2 ^ g.bits : Nat) : Int) - 1
 def GoInt.inRange (g : GoInt) (v : Int) : Prop := g.lo ≤ v ∧ v ≤ g.hi
 instance (g : GoInt) (v : Int) : Decidable (g.inRange v) := by unfold GoInt.inRange; exact inferInstance
 
@@ -1010,5 +1011,53 @@ def mapObject (F : Facts) (T : Dt) (s : Bytes) : MapRes :=
   | .gDay => tim .gDay | .gMonth => tim .gMonth | .gMonthDay => tim .gMonthDay | .gYear => tim .gYear
   | .gYearMonth => tim .gYearMonth | .time => tim .time
   | .duration => ofExcept (mapDuration F.duration s) lexDuration
+
+/-! ### TermEquals of a mapped value, by datatype -/
+
+/-- TermEquals for the types whose method compares `tLiteral.LexicalForm` with a text computed
+    from the value (`none` = that text is not determined by the model) -/
+def termEqualsText (datatype : Bytes) (same : Bool) (text : Option Bytes) (t : TermArg) : Option Bool :=
+  match t with
+  | .notLiteral => some false
+  | .literal dt lex =>
+    if ¬same then none
+    else if dt ≠ datatype then some false
+    else text.map (fun c => decide (c = lex))
+
+inductive TeqRes
+  | val (b : Bool)
+  | mapErr
+  | unknown
+  deriving DecidableEq, Repr
+
+/-- `Map<T>(s)` then `.TermEquals(t)` -/
+def termEqualsObject (F : Facts) (T : Dt) (s : Bytes) (t : TermArg) : TeqRes :=
+  let fin {α : Type} (r : Except NumErr α) (k : α → Option Bool) : TeqRes :=
+    match r with
+    | .ok v => (match k v with | some b => .val b | none => .unknown)
+    | .error .unmodelled => .unknown
+    | .error _ => .mapErr
+  let int (ty : IntTy) : TeqRes := fin (mapInt (F.int ty) s) (fun v => termEqualsInt (F.int ty) v t)
+  let flt (ty : FloatTy) : TeqRes :=
+    let f := F.float ty
+    fin (mapFloat f s) (fun v => termEqualsText f.datatype f.eqDatatypeSame (fmtFloatWith f.eqFmt f.eqBits v) t)
+  let str (ty : StrTy) : TeqRes := fin (mapStr (F.str ty) s) (fun v => termEqualsStr (F.str ty) v t)
+  let tim (ty : TimeTy) : TeqRes :=
+    let f := F.time ty
+    fin (mapTime f s) (fun v => termEqualsText f.datatype f.eqDatatypeSame (some (lexTime v)) t)
+  match T with
+  | .integer => int .integer | .long => int .long | .int => int .int | .short => int .short
+  | .byte => int .byte | .unsignedLong => int .unsignedLong | .unsignedInt => int .unsignedInt
+  | .unsignedShort => int .unsignedShort | .unsignedByte => int .unsignedByte
+  | .boolean => fin (mapBool F.bool s) (fun v => termEqualsBool F.bool v t)
+  | .decimal => flt .decimal | .double => flt .double | .float => flt .float
+  | .anyURI => str .anyURI | .base64Binary => str .base64Binary | .hexBinary => str .hexBinary
+  | .string => str .string
+  | .date => tim .date | .dateTime => tim .dateTime | .dateTimeStamp => tim .dateTimeStamp
+  | .gDay => tim .gDay | .gMonth => tim .gMonth | .gMonthDay => tim .gMonthDay | .gYear => tim .gYear
+  | .gYearMonth => tim .gYearMonth | .time => tim .time
+  | .duration =>
+    fin (mapDuration F.duration s)
+      (fun v => termEqualsText F.duration.datatype F.duration.eqDatatypeSame (lexDuration v) t)
 
 end RdfModel.Xsd
